@@ -50,6 +50,10 @@ impl Lace {
     }
 
     pub fn run_with(&self, args: &[&str], stdin: &[u8], envs: &[(&str, &str)], wrapper: Option<&[&str]>) -> Run {
+        self.run_timeout(args, stdin, envs, wrapper, 60)
+    }
+
+    pub fn run_timeout(&self, args: &[&str], stdin: &[u8], envs: &[(&str, &str)], wrapper: Option<&[&str]>, timeout_s: u64) -> Run {
         let mut cmd = match wrapper {
             Some(w) => {
                 let mut c = Command::new(w[0]);
@@ -97,7 +101,7 @@ impl Lace {
             match child.try_wait().expect("wait") {
                 Some(s) => break s,
                 None => {
-                    if start.elapsed() > Duration::from_secs(60) {
+                    if start.elapsed() > Duration::from_secs(timeout_s) {
                         let _ = child.kill();
                         timed_out = true;
                         break child.wait().expect("wait");
